@@ -6,10 +6,11 @@
      buf     : [File -> Content \cup {None}]      open editor buffers (None = not open)
      tracked : [File -> Content \cup {None}]      what the live server read from disk (initial read +
                                                   debounced watcher batches)
-     computed: set of <<kind, file>> answers the live server has computed at least once since start
-               (they sit in the memoization cache: the interesting histories are those that change
-               an input of an answer AFTER it was first computed, e.g. a first didOpen after the
-               first validation)
+     cache   : [Observation -> the effective contents the answer was last computed FROM, or None]
+               (the answers sit in the memoization cache of the live server; two histories are the
+               same state only if every cached answer was computed from the same inputs — so a first
+               didOpen AFTER the first validation is a different state from a didOpen before it, and
+               both orders are explored and replayed)
    Effective content of a file: its buffer if open, else the disk content.
    Layer A: the answer of every Validate / Request equals the answer of a freshly started server that
      reads the same disk and is sent didOpen for the same buffers:  Answer(kind, f, Eff).
@@ -27,14 +28,16 @@ Kinds == {"tokens", "format", "hover", "definition"}
 
 CONSTANTS MaxOps, Emit
 
-VARIABLES disk, buf, tracked, computed, hist
-vars == <<disk, buf, tracked, computed, hist>>
-View == <<disk, buf, tracked, computed, Len(hist)>>
+Obs == {<<"validate", "*">>} \cup (Kinds \X Files)
+
+VARIABLES disk, buf, tracked, cache, hist
+vars == <<disk, buf, tracked, cache, hist>>
+View == <<disk, buf, tracked, cache, Len(hist)>>
 
 Init == /\ disk = [f \in Files |-> "ok1"]
         /\ buf = [f \in Files |-> None]
         /\ tracked = [f \in Files |-> "ok1"]
-        /\ computed = {}
+        /\ cache = [o \in Obs |-> None]
         /\ hist = <<>>
 
 Eff(d, b)  == [f \in Files |-> IF b[f] # None THEN b[f] ELSE d[f]]
@@ -44,30 +47,30 @@ Log(op) == hist' = Append(hist, op)
 
 DidOpen(f, c) == /\ Guard /\ buf[f] = None
                  /\ buf' = [buf EXCEPT ![f] = c] /\ Log([op |-> "open", f |-> f, c |-> c])
-                 /\ UNCHANGED <<disk, tracked, computed>>
+                 /\ UNCHANGED <<disk, tracked, cache>>
 DidChange(f, c) == /\ Guard /\ buf[f] # None /\ buf[f] # c
                    /\ buf' = [buf EXCEPT ![f] = c] /\ Log([op |-> "change", f |-> f, c |-> c])
-                   /\ UNCHANGED <<disk, tracked, computed>>
+                   /\ UNCHANGED <<disk, tracked, cache>>
 DidClose(f) == /\ Guard /\ buf[f] # None
                /\ buf' = [buf EXCEPT ![f] = None] /\ Log([op |-> "close", f |-> f])
-               /\ UNCHANGED <<disk, tracked, computed>>
+               /\ UNCHANGED <<disk, tracked, cache>>
 \* an on-disk edit (save from another program, git checkout, ...) and the watcher batch it produces
 DiskWrite(f, c) == /\ Guard /\ disk[f] # c
                    /\ disk' = [disk EXCEPT ![f] = c] /\ tracked' = [tracked EXCEPT ![f] = c]
                    /\ Log([op |-> "disk", f |-> f, c |-> c, ev |-> IF disk[f] = None THEN "create" ELSE "modify"])
-                   /\ UNCHANGED <<buf, computed>>
+                   /\ UNCHANGED <<buf, cache>>
 DiskDelete(f) == /\ Guard /\ disk[f] # None
                  /\ disk' = [disk EXCEPT ![f] = None] /\ tracked' = [tracked EXCEPT ![f] = None]
                  /\ Log([op |-> "disk", f |-> f, c |-> None, ev |-> "remove"])
-                 /\ UNCHANGED <<buf, computed>>
+                 /\ UNCHANGED <<buf, cache>>
 Validate == /\ Guard
-            /\ computed' = computed \cup {<<"validate", "*">>}
+            /\ cache' = [cache EXCEPT ![<<"validate", "*">>] = Eff(tracked, buf)]
             /\ Log([op |-> "validate"]) /\ UNCHANGED <<disk, buf, tracked>>
 Request(k, f) == /\ Guard /\ (disk[f] # None \/ buf[f] # None)
-                 /\ computed' = computed \cup {<<k, f>>}
+                 /\ cache' = [cache EXCEPT ![<<k, f>>] = Eff(tracked, buf)[f]]
                  /\ Log([op |-> "request", k |-> k, f |-> f]) /\ UNCHANGED <<disk, buf, tracked>>
 Gc == /\ Guard /\ Len(hist) > 0 /\ hist[Len(hist)].op # "gc"
-      /\ computed' = {} /\ Log([op |-> "gc"]) /\ UNCHANGED <<disk, buf, tracked>>
+      /\ cache' = [o \in Obs |-> None] /\ Log([op |-> "gc"]) /\ UNCHANGED <<disk, buf, tracked>>
 
 Next == \/ \E f \in Files, c \in Contents : DidOpen(f, c) \/ DidChange(f, c) \/ DiskWrite(f, c)
         \/ \E f \in Files : DidClose(f) \/ DiskDelete(f)
